@@ -330,8 +330,11 @@ func (h *H) Data() map[string]interface{} {
 				}
 			}
 		}
-		if rd.Ret == RetElse {
+		if rd.Ret == RetElse || rd.Ret == RetElseIf {
 			d[fmt.Sprintf("VF%d", id)] = false
+		}
+		if rd.Ret == RetForRange {
+			d[fmt.Sprintf("RS%d", id)] = []int64{4, 5}
 		}
 		if needVA {
 			if fk == SecAsgKind || fk == SecArg || fk == SecForStep || fk == SecSetKind || retFire {
